@@ -113,10 +113,11 @@ type Env struct {
 	WantCov    bool
 
 	// outputs
-	Trace []Eff
-	Apps  []App
-	Cov   RefCov
-	jumps int
+	Trace    []Eff
+	Apps     []App
+	Cov      RefCov
+	FailNode *Node // the operator / if node whose application failed (first failure)
+	jumps    int
 }
 
 func (env *Env) lookup(name string) (interface{}, bool) {
@@ -183,6 +184,9 @@ func (env *Env) eval(n *Node, parent *Node) (interface{}, error) {
 		}
 		b, ok := c.(bool)
 		if !ok {
+			if env.FailNode == nil {
+				env.FailNode = n
+			}
 			return nil, &BuiltinErr{Op: "if", Args: []interface{}{c}, Why: "non-bool condition"}
 		}
 		taken, other := n.Ch[1], n.Ch[2]
@@ -215,7 +219,11 @@ func (env *Env) eval(n *Node, parent *Node) (interface{}, error) {
 		}
 		args = append(args, v)
 	}
-	return env.apply(n.Name, args, false)
+	res, err := env.apply(n.Name, args, false)
+	if err != nil && env.FailNode == nil {
+		env.FailNode = n
+	}
+	return res, err
 }
 
 func (env *Env) apply(name string, args []interface{}, optional bool) (interface{}, error) {
